@@ -21,6 +21,9 @@ META = {
              "yaml.rs:91-123, msgpack.rs:94-125, toml.rs:52-121) it is proved for ALL histories of translate calls and ALL "
              "document lists that a streaming target's writer receives exactly the in-order concatenation of the framed "
              "translations of each document taken alone, that zero documents write nothing, and that output is append-only. "
+             "Re-framing is proved on the codec models for two targets: the JSON stream xt writes for N values (each followed by "
+             "a newline) is read back by both JSON loops as exactly N documents with the events written (floats under an explicit "
+             "premise on ryu), and back-to-back MessagePack values are recovered one by one. "
              "The model is diffed against the real Translator on generated histories (0..6 calls in mixed source formats, "
              "0..5 documents per call, every separator style, slice and reader with random read schedules, refused documents, "
              "trailing garbage). The oracle checks on the implementation that N documents (N = 0..500, documents ending on and "
